@@ -124,9 +124,14 @@ func (b *Broadcaster[T]) Broadcast(value T) {
 // the subscribers. The Broadcaster will be a no-op after this call.
 func (b *Broadcaster[T]) Close() {
 	defer b.wg.Wait()
-	b.lock.Lock()
+	// Signal before taking the lock: a Broadcast that is blocked on a subscriber
+	// which does not read holds the lock, and closeCh is what releases it.
 	if b.closed.CompareAndSwap(false, true) {
 		close(b.closeCh)
 	}
+	// Wait for a Broadcast or Subscribe that is in progress; a Subscribe that got in
+	// before the signal has registered its goroutine with the wait group by now.
+	b.lock.Lock()
+	//nolint:staticcheck
 	b.lock.Unlock()
 }
